@@ -27,6 +27,7 @@ let raw_of (a : string list) : M.raw option =
   | ["purged"; t] -> Some (M.RCore (M.EPurged (nat t)))
   | ["wfenter"; t] -> Some (M.RCore (M.EWfEnter (nat t)))
   | ["wfexit"; t] -> Some (M.RCore (M.EWfExit (nat t)))
+  | ["ack"; t; ok] -> Some (M.RCore (M.EAck (nat t, b ok)))
   | ["retclose"; t; r] -> Some (M.RRetClose (nat t, nat r))
   | _ -> None
 
